@@ -72,51 +72,62 @@ def run(ctx):
                       "ring insertion `%s` is fallible (returns %s): on a full queue the newest entry is handed back and lost instead of "
                       "displacing the oldest" % (cs.name, dty), "%s returns the displaced element (%s)" % (cs.name, dty))
             # R09.3 loss counter next to this insertion
-            incs = [c for c in ib.calls() if c.name == "increment_counter" and any((op_const(a) or {}).get("str") == "metrique_queue_overflows" for a in c.args)]
+            is_inc = lambda c: c.name == "increment_counter" and any((op_const(a) or {}).get("str") == "metrique_queue_overflows" for a in c.args)
+            incs = [(ib, c, c.bb) for c in ib.calls() if is_inc(c)]
+            # the loss accounting may sit in a helper of its own, called where the displaced entry is known
+            for c in ib.calls():
+                for hb in local_callee_bodies(F, c):
+                    if hb.crate == BG and hb.def_ != ib.def_ and any(is_inc(x) for x in hb.calls()):
+                        incs += [(hb, x, c.bb) for x in hb.calls() if is_inc(x)]
             ctx.check(len(incs) >= 1, "R09.3", fnkey(ib) + "#overflow-counter-present", loc(ib), "no metrique_queue_overflows counter increment next to the ring insertion")
-            dom = ib.dominators()
-            pr = Prov(ib)
-            for inc in incs:
-                amt = op_const(inc.args[-1]) or {}
-                ctx.check(amt.get("int") == 1, "R09.3", fnkey(ib) + "#overflow-amount-1", loc(ib, inc.bb),
-                          "overflow counter is bumped by %s per displaced entry instead of 1" % (amt.get("int", "a non-constant")))
-                ctx.check(inc.bb not in ib.reachable_after(inc.bb), "R09.3", fnkey(ib) + "#overflow-not-in-loop", loc(ib, inc.bb), "overflow increment sits in a loop")
-                # guards: switches dominating the increment
-                guards = []
-                displaced_guard = False
-                for i in ib.live_blocks():
-                    t = ib.term(i)
-                    if t["k"] != "switch" or not dominates(ib, i, inc.bb, dom) or i == inc.bb:
+
+            def guard_scan(body, at_bb, ins_cs):
+                """switches that decide whether block at_bb of `body` runs: (depends on the displaced value?, extra guards, some-side ok?)"""
+                dom_ = body.dominators()
+                pr_ = Prov(body)
+                guards, displaced_guard, side_ok = [], False, True
+                for i in body.live_blocks():
+                    t = body.term(i)
+                    if t["k"] != "switch" or not dominates(body, i, at_bb, dom_) or i == at_bb:
                         continue
-                    # does the switch actually decide reaching inc? (inc not reachable from every successor)
-                    succs = ib.succ(i)
-                    reach = [inc.bb in ib.reachable(s) for s in succs]
-                    if all(reach):
+                    # does the switch actually decide reaching at_bb? (not reachable from every successor)
+                    succs = body.succ(i)
+                    if all(at_bb in body.reachable(s) for s in succs):
                         continue
-                    o = pr.operand(t["discr"])
-                    from_ins = any(x == ("call", cs.bb) for x in o) or any(
-                        x[0] == "call" and _is_some_of(ib, x[1], cs) for x in o)
+                    o = pr_.operand(t["discr"])
+                    from_ins = ins_cs is not None and (any(x == ("call", ins_cs.bb) for x in o) or any(
+                        x[0] == "call" and _is_some_of(body, x[1], ins_cs) for x in o))
                     # "is a metrics recorder installed": the matched Option holds the recorder (recognised by type, whatever the field is
                     # called and however the queue's inner state is reached)
                     from_rec = any(x[0] == "arg" and x[1] == 1 and "recorder" in x[2] for x in o)
-                    for s_ in ib.stmts(i):
-                        if s_["k"] == "assign" and s_["rv"]["k"] == "discr" and "MetricRecorder" in ib.local_ty(s_["rv"]["place"]["l"]):
+                    for s_ in body.stmts(i):
+                        if s_["k"] == "assign" and s_["rv"]["k"] == "discr" and "MetricRecorder" in body.local_ty(s_["rv"]["place"]["l"]):
                             from_rec = True
                     if from_ins:
                         displaced_guard = True
-                        # increment must be on the Some side
-                        some_side = _some_side(ib, i, t, cs, pr)
-                        ctx.check(some_side is not None and inc.bb in ib.reachable(some_side) and not any(
-                            inc.bb in ib.reachable(s) for s in succs if s != some_side),
-                            "R09.3", fnkey(ib) + "#overflow-counted-only-when-displaced", loc(ib, inc.bb),
-                            "overflow increment is reachable on the branch where nothing was displaced")
-                    elif from_rec:
-                        pass
-                    else:
+                        some_side = _some_side(body, i, t, ins_cs, pr_)
+                        side_ok = side_ok and some_side is not None and at_bb in body.reachable(some_side) and not any(
+                            at_bb in body.reachable(s) for s in succs if s != some_side)
+                    elif not from_rec:
                         guards.append(i)
-                ctx.check(displaced_guard, "R09.3", fnkey(ib) + "#overflow-guarded-by-displacement", loc(ib, inc.bb),
+                return displaced_guard, guards, side_ok
+
+            for hb, inc, site in incs:
+                amt = op_const(inc.args[-1]) or {}
+                ctx.check(amt.get("int") == 1, "R09.3", fnkey(ib) + "#overflow-amount-1", loc(hb, inc.bb),
+                          "overflow counter is bumped by %s per displaced entry instead of 1" % (amt.get("int", "a non-constant")))
+                in_loop = inc.bb in hb.reachable_after(inc.bb) or site in ib.reachable_after(site)
+                ctx.check(not in_loop, "R09.3", fnkey(ib) + "#overflow-not-in-loop", loc(hb, inc.bb), "overflow increment sits in a loop")
+                displaced_guard, guards, side_ok = guard_scan(ib, site, cs)
+                if hb is not ib:
+                    _, g2, _ = guard_scan(hb, inc.bb, None)
+                    guards = guards + ["%s:bb%d" % (hb.name, g) for g in g2]
+                if displaced_guard:
+                    ctx.check(side_ok, "R09.3", fnkey(ib) + "#overflow-counted-only-when-displaced", loc(hb, inc.bb),
+                              "overflow increment is reachable on the branch where nothing was displaced")
+                ctx.check(displaced_guard, "R09.3", fnkey(ib) + "#overflow-guarded-by-displacement", loc(hb, inc.bb),
                           "overflow increment is not control-dependent on the insertion having displaced an entry (counts every append)")
-                ctx.check(not guards, "R09.3", fnkey(ib) + "#overflow-no-extra-guard", loc(ib, inc.bb),
+                ctx.check(not guards, "R09.3", fnkey(ib) + "#overflow-no-extra-guard", loc(hb, inc.bb),
                           "overflow increment has additional guard(s) at bb%s: some displaced entries would not be counted" % guards)
     ctx.floor("R09.2", "ring insertions on the append chain", n_ins, 1)
     # ------------------------------------------------------------------ R09.4 the loss is counted for this queue: own name in, nothing remembered in the bridge
